@@ -102,8 +102,9 @@ ToyEval(it) ==
         bad |-> IF SeOk(it.v) /\ ~(PubOf(it.v) \in Affine /\ PairOk(PubOf(it.v)[1], PubOf(it.v)[2])) THEN {it.v} ELSE {}]
   ELSE [k |-> "toypair", x |-> it.x, n |-> Cardinality(ToyCoords),
         ys |-> {y \in ToyCoords : PairOk(it.x, y)},
-        \* integers that are not field elements but are congruent to a point: the property is silent
+        \* integers that are not field elements but are congruent to a point: refused or read as it (LiftOutcomeOk)
         lift |-> {y \in ToyCoords : ~PairOk(it.x, y) /\ OnCurveXY(it.x, y)},
+        liftread |-> {<<y, LiftRead(it.x, y)>> : y \in {y \in ToyCoords : ~PairOk(it.x, y) /\ OnCurveXY(it.x, y)}},
         bad |-> {y \in ToyCoords : PairOk(it.x, y) /\ <<it.x, y>> \notin Affine}]
 
 (* =============================================================== stage "pubrep" *)
@@ -131,8 +132,9 @@ RepEval(it) ==
         LET cand == {y \in RepCoords : Carries(it.kind, it.x, y)} IN
         [k |-> "repcol", kind |-> it.kind, x |-> it.x, cand |-> cand,
          acc |-> {y \in cand : PubOk(<<it.x, y>>)},
-         \* not field elements but congruent to a point: the property is silent
+         \* not field elements but congruent to a point: refused or read as that point (LiftOutcomeOk)
          lift |-> {y \in cand : ~PubOk(<<it.x, y>>) /\ OnCurveXY(it.x, y)},
+         liftread |-> {<<y, LiftRead(it.x, y)>> : y \in {y \in cand : ~PubOk(<<it.x, y>>) /\ OnCurveXY(it.x, y)}},
          bad |-> {y \in cand : PubOk(<<it.x, y>>) /\ <<it.x, y>> \notin Affine}]
     [] it.t = "inf" -> [k |-> "repinf", how |-> it.how, ok |-> FALSE, bad |-> {}]       \* infinity / not a pair: never a key
     [] it.t = "kg"  -> [k |-> "repkg", kk |-> it.k, isinf |-> PubOf(it.k) = Inf, ok |-> PubOk(PubOf(it.k)),
@@ -141,11 +143,12 @@ RepEval(it) ==
                         bad |-> {q \in Affine : Add(q, Neg(q)) # Inf \/ PubOk(Add(q, Neg(q)))}]
 \* the same rule on classes of values, for curves TLC cannot compute on (the harness concretizes on secp256k1,
 \* foreign = secp256r1 and a small curve)
-RepClasses == {"own-affine", "foreign-only", "off-both", "infinity", "half-none"}
+\* "lifted": own-affine with p added to one or both coordinates (refused, or read as the point: LiftOutcomeOk)
+RepClasses == {"own-affine", "foreign-only", "off-both", "infinity", "half-none", "lifted"}
 ClassCarried(kind, cls) == CASE kind = "ownpoint"     -> cls \in {"own-affine", "infinity"}
                              [] kind = "foreignpoint" -> cls \in {"foreign-only", "infinity"}
                              [] OTHER                 -> TRUE
-RepTable == {[kind |-> kd, cls |-> c, ok |-> c = "own-affine"] : kd \in RepKinds, c \in RepClasses}
+RepTable == {[kind |-> kd, cls |-> c, ok |-> c = "own-affine", either |-> c = "lifted"] : kd \in RepKinds, c \in RepClasses}
 RepHeader == [k |-> "rephdr", p |-> P, a |-> A, b |-> B, gx |-> Gx, gy |-> Gy, n |-> N, foreign |-> Foreign,
               table |-> {r \in RepTable : ClassCarried(r.kind, r.cls)}]
 
